@@ -17,6 +17,7 @@ DRIVER = "drv_c17"
 GEN = ["guardrails"]
 STREAMS = {
     "ff": {"relevant": True, "desc": "BeaconConfig.from_bytes(payload): guardrails metadata + config block / ValueError"},
+    "ffx": {"relevant": True, "desc": "BeaconConfig.from_bytes(XorEncoded container of payload); model runs on the decoded view"},
     "wb": {"relevant": True, "desc": "iter_guardrail_configs_with_beacon(BytesIO(payload)) with io.DEFAULT_BUFFER_SIZE patched"},
     "scan": {"relevant": True, "desc": "iter_guardrail_configs(BytesIO(payload), xorkey): offsets, unmasked guard config, settings, checksum"},
     "cands": {"relevant": False, "desc": "find_xor_key_candidates(BytesIO(data)) with io.DEFAULT_BUFFER_SIZE patched (Counter/most_common model)"},
@@ -163,6 +164,27 @@ def clean(payload: bytes) -> bool:
     return not any(h in payload for h in NORMAL_HEADERS)
 
 
+def dos_header() -> bytes:
+    """minimal IMAGE_DOS_HEADER + PE signature + IMAGE_FILE_HEADER.Machine = AMD64 (what XorEncodedFile.from_file looks for)"""
+    h = bytearray(96)
+    h[0:2] = b"MZ"
+    h[60:64] = struct.pack("<I", 64)
+    h[64:68] = b"PE\0\0"
+    h[68:70] = struct.pack("<H", 0x8664)
+    return bytes(h)
+
+
+def xorencode(payload: bytes, nonce: bytes) -> bytes:
+    """independent XorEncoded container: nonce | size ^ nonce | 4-byte chained xor of the payload"""
+    out = bytearray()
+    prev = nonce
+    for i in range(0, len(payload), 4):
+        c = bytes(a ^ b for a, b in zip(payload[i:i + 4], prev))
+        out += c
+        prev = c
+    return nonce + bytes(a ^ b for a, b in zip(struct.pack("<I", len(out)), nonce)) + bytes(out)
+
+
 def filler(rng, n):
     """random bytes without accidental guard markers or config headers (checked by the caller where it matters)"""
     return C.rbytes(rng, n)
@@ -203,6 +225,20 @@ class _BufSize:
 
 
 def impl(stream, line):
+    """The runner arms a 10 s SIGALRM around this call.  On a heavily loaded machine a 0.3 s extraction can exceed that;
+    a first timeout is therefore retried once under a 90 s alarm (a real hang still ends as `exc Timeout`)."""
+    try:
+        return _impl(stream, line)
+    except Exception as e:  # noqa: BLE001
+        if type(e).__name__ != "Timeout":
+            raise
+    import signal
+
+    signal.alarm(90)
+    return _impl(stream, line)
+
+
+def _impl(stream, line):
     w = line.split()
     if stream == "scan":
         ms = list(G.iter_guardrail_configs(io.BytesIO(C.unhx(w[1])), C.unhx(w[2])))
@@ -211,9 +247,12 @@ def impl(stream, line):
         with _BufSize(int(w[2])):
             ms = list(G.iter_guardrail_configs_with_beacon(io.BytesIO(C.unhx(w[1]))))
         return "ok " + show_metas(ms)
-    if stream == "ff":
+    if stream in ("ff", "ffx"):
+        data = C.unhx(w[1])
+        if stream == "ffx":
+            data = xorencode(data, C.unhx(w[4]))
         with _BufSize(int(w[2])):
-            bc = BeaconConfig.from_bytes(C.unhx(w[1]))
+            bc = BeaconConfig.from_bytes(data)
         if bc.guardrails is None:
             return "ordinary-path " + C.hx(bc.config_block[:16])
         m = bc.guardrails
@@ -318,7 +357,7 @@ def oracle(stream, line, out):
             return False
         payload = C.unhx(w[1])
         return all(safe_meta(payload, m) for m in split_metas(out))
-    if stream == "ff":
+    if stream in ("ff", "ffx"):
         payload = C.unhx(w[1])
         tag = w[3] if len(w) > 3 else "U"
         if out.startswith("ok "):
@@ -339,8 +378,10 @@ def oracle(stream, line, out):
             cfg = bx(bx(payload[bco:bco + BSIZE], b"\x2e"), key)
             if m["key"] in (key, primitive_root(key)):
                 return m["bco"] == bco and m["cfg"] == cfg
-            if m["bco"] == bco and len(m["key"]) < len(primitive_root(key)):
-                return None  # NoEarlierChecksumHit violated: a shorter candidate collides on the weak checksum
+            if m["bco"] == bco and len(m["key"]) <= len(primitive_root(key)):
+                # hypotheses of recover_partial violated: a candidate of a shorter length, or a tied one of the same length,
+                # collides on the weak checksum (that the checksum does match was verified by safe_meta above)
+                return None
             if m["bco"] == bco and m["cfg"] == cfg:
                 return None  # another spelling of the same key (tie order)
             return False
@@ -351,7 +392,7 @@ def oracle(stream, line, out):
 def nontrivial(stream, line, out):
     if stream in ("cands", "cks"):
         return line.split()[1] != "x"
-    if stream == "ff":
+    if stream in ("ff", "ffx"):
         return out.startswith("ok ")
     return out.startswith("ok ") and not out.startswith("ok 0")
 
@@ -486,7 +527,7 @@ def gen(tier, rng, shard, nshards):
             yield c
 
     # ---- ff: decoy area (bad checksum) in front of the real one; marker too close to the start; truncated areas
-    for di in range(24 if thorough else 6):
+    for di in range(36 if thorough else 12):
         if not mine():
             continue
         key = make_key(rng, rng.choice([4, 15, 30]))
@@ -530,6 +571,44 @@ def gen(tier, rng, shard, nshards):
             c = ff(pre + ar + filler(rng, 2) + ar2, f"R:{key.hex()}:3")
         if c:
             yield c
+
+    # ---- ff: ties between the key and another gram (most_common(2) tie rule, `count >= first_count`)
+    # cfg = one header gram ++ unit × per ++ zeros: the gram `unit ^ key` is inserted before `key` and has the same count,
+    # so the key is the *second* entry of most_common(2) and only yielded because of `>=`.  (Without the header gram the
+    # weak checksum cannot tell the two candidates apart: moving a block by a multiple of 3 bytes keeps it.)
+    # Three units: the key is third and never yielded at that length.
+    for ti in range(12 if thorough else 4):
+        if not mine():
+            continue
+        three = ti % 2 == 1
+        nparts = 3 if three else 2
+        L = rng.choice([n for n in range(9, 64) if (BSIZE // n - 1) % nparts == 0])
+        key = make_key(rng, L, "bytes")
+        per = (BSIZE // L - 1) // nparts
+
+        def unit():
+            return struct.pack(">HHH", rng.randrange(1, 60), 3, L - 6) + bytes(rng.randrange(1, 256) for _ in range(L - 6))
+
+        cfg = unit() + b"".join(unit() * per for _ in range(nparts - 1))
+        cfg = cfg + bytes(BSIZE - len(cfg))
+        _, gc, ar = area(rng, key, rng.choice(OPT_SUBSETS), cfg=cfg)
+        pre = filler(rng, rng.choice([0, 8]))
+        c = ff(pre + ar, "U" if three else f"R:{key.hex()}:{len(pre)}")
+        if c:
+            yield c
+
+    # ---- ffx: the same through an XorEncoded container (optional path `fxor = XorEncodedFile.from_file(fobj)`)
+    for xi in range(24 if thorough else 5):
+        if not mine():
+            continue
+        key = make_key(rng, rng.choice([2, 9, 15, 16, 64, 256]))
+        bad = xi % 4 == 3
+        cfg, gc, ar = area(rng, key, rng.choice(OPT_SUBSETS), checksum_delta=3 if bad else 0)
+        pre = dos_header() + filler(rng, rng.choice([0, 1, 2, 3, 50]))
+        payload = pre + ar + filler(rng, rng.choice([0, 1, 2, 3, 13]))
+        if clean(payload):
+            tag = "M" if bad else f"R:{key.hex()}:{len(pre)}"
+            yield "ffx", f"ffx {C.hx(payload)} 8192 {tag} {C.hx(C.rbytes(rng, 4))}"
 
     # ---- ff: configurations whose zero padding does not dominate (recovery not promised; correspondence only)
     for _ in range((24 if thorough else 4) // 1):
@@ -577,6 +656,8 @@ def gen(tier, rng, shard, nshards):
                 d[rng.randrange(n)] = rng.choice(alpha)
             d = bytes(d)
         buf = rng.choice([8192, 8192, 1, 2, 3, 5, 7, 16, 100, 256, 512])
+        if buf < 16 and n > 64:
+            buf = rng.choice([16, 100, 256])  # tiny chunks on long data only cost time (255 key lengths × n/buf reads)
         yield "cands", f"cands {C.hx(d)} {buf}"
     for _ in range(6 if thorough else 2):
         if not mine():
